@@ -169,6 +169,11 @@ def supercell_unit(u, res):
     return res
 
 
+def _centring(c):
+    from phonopy.structure.cells import get_primitive_matrix_by_centring
+    return get_primitive_matrix_by_centring(c)
+
+
 def _ground(res, name, ok, key, what, replay):
     res.queries.append({"name": name + " [ground fact on the path]", "verdict": "unsat" if ok else "sat", "seconds": 0.0, "nvars": 0,
                         "nontrivial": False, "hash": "ground"})
@@ -372,6 +377,31 @@ def primitive_unit(u, res):
                 if orbit != sorted(k for k in range(n_s) if s2p[k] == s2p[a]):
                     ok = False; why = "translations not simply transitive on sublattice of atom %d" % a
         _ground(res, "primitive maps %s/%s" % (gid, sid), ok, "%s:primitive:%s/%s" % (PID, gid, sid), why, {"gid": gid, "sid": sid})
+    # inputs that cannot be tiled are rejected: species include the index of the symbol ("Cl" vs "Cl1"), so a centring
+    # that maps a Cl onto a Cl1 is not a translation of the crystal; the centrings that do survive must still build.
+    from phonopy.structure.atoms import PhonopyAtoms
+    from phonopy.structure.cells import get_primitive, get_supercell
+    pts = [[0, 0, 0], [0, .5, .5], [.5, 0, .5], [.5, .5, 0], [.5, .5, .5], [.5, 0, 0], [0, .5, 0], [0, 0, .5]]
+    for label, symbols, good, bad in (
+            ("index", ["Na"] * 4 + ["Cl", "Cl", "Cl1", "Cl1"], ["P", "A"], ["F", "C", "I"]),
+            ("element", ["Na"] * 4 + ["Cl", "Cl", "Br", "Br"], ["P", "A"], ["F", "C"]),
+            ("plain", ["Na"] * 4 + ["Cl"] * 4, ["P", "A", "C", "F"], ["I"])):
+        mass = {"Na": 22.99, "Cl": 34.97, "Cl1": 36.97, "Br": 79.9}
+        cell = PhonopyAtoms(cell=np.eye(3) * 5.69, symbols=symbols, scaled_positions=pts, masses=[mass[s] for s in symbols])
+        for smat in (np.eye(3, dtype=int), np.diag([2, 1, 1])):
+            sc = get_supercell(cell, smat)
+            for pm in good + bad:
+                try:
+                    pr = get_primitive(sc, np.linalg.inv(smat) @ _centring(pm))
+                    built = True
+                    same = all(sc.symbols[k] == pr.symbols[pr.p2p_map[pr.s2p_map[k]]] for k in range(len(sc)))
+                except RuntimeError:
+                    built, same = False, True
+                ok = (built and same) if pm in good else not built
+                why = ("valid centring %s rejected or species mixed" if pm in good else "centring %s mixes species but was built") % pm
+                _ground(res, "species guard %s %s det=%d" % (label, pm, round(np.linalg.det(smat))), ok,
+                        "%s:primitive:guard:%s:%s" % (PID, label, pm), why,
+                        {"symbols": symbols, "pm": pm, "smat": np.array(smat).tolist()})
     res.twins.append({"name": "primitive family non-empty", "verdict": "sat"})
     res.samples.append({"unit": res.unit, "family": fam})
     return res
